@@ -360,6 +360,21 @@ func runWallet(r *ev.Run, base string, ws walletSpec) {
 	for idx, m := range ms {
 		a := m.spec
 		kp := ws.kind + ":" + a.variant
+		// vacuity classes: what is due for this account (a check that cannot be carried out is a violation below)
+		r.Class("roundtrip_checked/" + a.variant)
+		r.Class("other_password_checked")
+		if a.variant != "legacy-ctr" && len(a.pw) != 0 {
+			switch idx {
+			case 1:
+				r.Class("changepassword_checked")
+			case 2:
+				r.Class("unlock_checked")
+			}
+		}
+		if cli.GetAccountMetadataByAddress(m.addr) == nil {
+			r.Violation(kp+":account-missing-after-reopen", det(ws, a, map[string]any{"index": idx + 1, "accounts_in_file": cli.GetAccountNum()}))
+			continue
+		}
 		if len(a.pw) == 0 {
 			// The wallet refuses the empty password everywhere (NewAccount and decryption); an imported key protected
 			// with "" can therefore never be opened. Recorded as an observation; every other password must still fail.
@@ -391,7 +406,6 @@ func runWallet(r *ev.Run, base string, ws walletSpec) {
 				var err error
 				rec, p := ev.Guard(func() { acc, err = g.f() })
 				r.Eval()
-				r.Class("roundtrip_checked/" + a.variant)
 				switch {
 				case p:
 					r.Violation(kp+":own-password:panic:"+g.name, det(ws, a, map[string]any{"panic": fmt.Sprint(rec)}))
@@ -452,7 +466,6 @@ func runWallet(r *ev.Run, base string, ws walletSpec) {
 			var err error
 			rec, p := ev.Guard(func() { acc, err = get() })
 			r.Eval()
-			r.Class("other_password_checked")
 			if p {
 				r.Violation(kp+":other-password:panic", det(ws, a, map[string]any{"other": o.name, "other_hex": hex.EncodeToString(o.pw), "panic": fmt.Sprint(rec)}))
 				continue
@@ -476,7 +489,6 @@ func runWallet(r *ev.Run, base string, ws walletSpec) {
 		switch idx {
 		case 1: // ChangePassword: wrong old password refused and harmless; right one re-protects and is saved
 			newPw := append(append([]byte{}, a.pw...), []byte("-new")...)
-			r.Class("changepassword_checked")
 			if err := cli.ChangePassword(m.addr, wrong, newPw); err == nil {
 				r.Violation(kp+":ChangePassword-with-wrong-old-password-accepted", det(ws, a, nil))
 			}
@@ -498,7 +510,6 @@ func runWallet(r *ev.Run, base string, ws walletSpec) {
 			cli = c3
 			m.spec.pw = newPw
 		case 2: // UnLockAccount must not let another password in
-			r.Class("unlock_checked")
 			if err := cli.UnLockAccount(m.addr, 3600, wrong); err == nil {
 				r.Violation(kp+":UnLockAccount-with-other-password-accepted", det(ws, a, nil))
 			}
